@@ -10,7 +10,7 @@ import (
 	"verif/harness/spec"
 )
 
-var c19Patterns = []string{"silent", "traffic-then-silent", "ping", "publish-only", "trickle", "silent-mid-packet", "silent-after-header-byte", "uneven"}
+var c19Patterns = []string{"silent", "traffic-then-silent", "ping", "publish-only", "trickle", "silent-mid-packet", "silent-after-header-byte", "uneven", "large-then-ping"}
 var c19Fractions = []float64{0.25, 0.5, 0.9, 0.99}
 
 func c19Run(t *testing.T, K int, pattern string, frac float64, idx int) {
@@ -55,6 +55,16 @@ func c19Run(t *testing.T, K int, pattern string, frac float64, idx int) {
 			rounds = 50
 		case "traffic-then-silent":
 			rounds = 8
+		case "large-then-ping":
+			// a small packet and, right behind it, one almost as large as the connection's ring (16 KiB),
+			// in one write; then ordinary pings. The large one cannot be taken out of the ring before it
+			// has arrived completely.
+			rounds = 8
+			pre := rc.Encode(&rc.Packet{Type: rc.PUBLISH, Topic: []byte("ka/data"), Payload: spec.MakePayload(1, 0, 3000)})
+			pre = append(pre, rc.Encode(&rc.Packet{Type: rc.PUBLISH, Topic: []byte("ka/data"), Payload: spec.MakePayload(2, 0, 16384-500-int(frac*400))})...)
+			c.Send(pre)
+			settle()
+			lastByte = time.Now()
 		}
 		pings := 0
 		ur := spec.NewRand(uint64(K)*1000 + uint64(frac*1000))
@@ -109,7 +119,7 @@ func c19Run(t *testing.T, K int, pattern string, frac float64, idx int) {
 			fail("c19:pingresp", fmt.Sprintf("%d PINGREQ sent, %d PINGRESP received", pings, got))
 			return
 		}
-		if pattern == "ping" || pattern == "publish-only" || pattern == "uneven" {
+		if pattern == "ping" || pattern == "publish-only" || pattern == "uneven" || pattern == "large-then-ping" {
 			if c.Closed() {
 				fail("c19:active-dropped", "disconnected at the end of the active phase")
 				return
